@@ -3,7 +3,7 @@ use crate::{
         LmsTreeIdentifier, D_TOPSEED, HSS_COMPRESSED_USED_LEAFS_SIZE, ILEN, MAX_ALLOWED_HSS_LEVELS,
         MAX_HASH_SIZE, MAX_SEED_LEN, REF_IMPL_MAX_ALLOWED_HSS_LEVELS,
         REF_IMPL_MAX_PRIVATE_KEY_SIZE, SEED_CHILD_SEED, SEED_SIGNATURE_RANDOMIZER_SEED, TOPSEED_D,
-        TOPSEED_LEN, TOPSEED_SEED, TOPSEED_WHICH,
+        TOPSEED_LEN, TOPSEED_SEED, TOPSEED_WHICH, TREE_HEIGHTS, WINTERNITZ_PARAMETERS,
     },
     hasher::HashChain,
     hss::{definitions::HssPrivateKey, seed_derive::SeedDerive},
@@ -296,7 +296,17 @@ impl CompressedParameterSet {
                 return Err(());
             }
 
-            result.extend_from_slice(&[HssParameter::new(lmots, lms)]);
+            let parameter = HssParameter::<H>::new(lmots, lms);
+
+            // The buffers of this build are sized for the configured per-level limits only
+            if parameter.get_lms_parameter().get_tree_height() as usize > TREE_HEIGHTS[level]
+                || (parameter.get_lmots_parameter().get_winternitz() as usize)
+                    < WINTERNITZ_PARAMETERS[level]
+            {
+                return Err(());
+            }
+
+            result.extend_from_slice(&[parameter]);
         }
 
         if result.is_empty() {
